@@ -34,7 +34,13 @@ ASSUMPTIONS = [
   "optimality is judged through the cost gap to the float64 optimum of MJWarp's own rows, scaled by meaninertia*max(1,nv) "
   "like the solver's tolerance test; allowance K*tolerance (K=30 Newton, 1000 CG: CG stops on 'improvement<tolerance', "
   "MuJoCo's CG at the same tolerance leaves gaps of the same size) + the float32 gradient-evaluation floor",
-  "MuJoCo comparison only under the gating rule (same row counts, matched contacts, no iteration flags, stable probe)",
+  "MuJoCo comparison only under the gating rule (same row counts, contacts matched to 2e-5 in position/distance and 2e-4 "
+  "in frame, no MuJoCo warning, structure stable under the +-2ulp probe); allowance K*tolerance + 50^2 * measured gap of "
+  "MuJoCo's own optimum under the probe (a gap is quadratic in the perturbation)",
+  "rows with an identically zero Jacobian are left out of the cost (constants up to 1e17 with D=1/mjMINVAL); worlds with a "
+  "LIVE row at D>=1e12 (invweight0==0: Hessian condition >=1e15, not representable in float32) are tallied, not judged",
+  "float32 floor: Jaref/Ma are accumulated from the start point of the solve, so the round-off terms use max(|qacc|, "
+  "|warmstart|, |qacc_smooth|) (a hostile warmstart of 1e4 leaves 1e4*eps32 in jar for the whole solve)",
 ]
 BUDGET = {"quick": 140, "thorough": 1500}
 
@@ -325,7 +331,7 @@ def run_case(case):
   d = mw.make_data(mjm, m, states, njmax=njmax, nconmax=max(48, 2 * ncon_need + 8))
   nontriv = False
   kernels = set()
-  refs, first_ii = {}, {}
+  refs, first_ii, first_aref, first_i_ok = {}, {}, {}, {}
   prev_qacc = None
   warm_disabled = bool(mjm.opt.disableflags & mujoco.mjtDisableBit.mjDSBL_WARMSTART)
   gateable = bool(case.get("exact_geoms"))
@@ -362,7 +368,11 @@ def run_case(case):
         rec.count("worlds_not_judged:D=1/mjMINVAL_on_live_row")
         continue
       start = prev_qacc[w] if p else (None if warm_disabled else states[w]["qacc_warmstart"])
+      nv0 = len(rec.violations)
       res = certificate_i(rec, P, int(ovf[w]), int(niter[w]), solver, tag, ctx, start=start)
+      if p == 0:
+        first_aref[w] = P["aref"].copy()
+        first_i_ok[w] = res is not None and len(rec.violations) == nv0
       E.admissibility(rec, mjm, m, d, w, rows=rows, contact_force=False, sig_prefix="C24:", start=start)
       rec.cover(f"judged:{solver}:{cone}:{'sparse' if m.is_sparse else 'dense'}", 1)
       rec.cover(f"judged_pass:{tag}", 1)
@@ -413,8 +423,16 @@ def run_case(case):
               if ratio > cmp.VIOL_FACTOR:
                 rec.viol(f"mujoco_cost_gap:{solver}", msg, qacc=P["qacc"][:8], ref=refs[w]["Pj"]["qacc"][:8])
               elif w in first_ii and first_ii[w][0] > cmp.VIOL_FACTOR and stale_candidate:
-                # the first call disagreed, the repeat call (identical state, velocity-stage fields now fresh) agrees
-                sig = "mujoco_cost_gap:connect_weld:stale_velocity_fields_on_first_call" if ratio <= 1 else f"mujoco_cost_gap:{solver}"
+                # the first call disagreed, the repeat call (identical state, velocity-stage fields now fresh) agrees.
+                # Narrow mechanism test: the first solve was optimal for ITS rows (certificate i clean) and the aref of
+                # connect/weld rows changed between the two calls although the state did not.
+                moved = False
+                a1 = first_aref.get(w)
+                if a1 is not None and a1.shape == P["aref"].shape:
+                  eqr = (P["type"] == E.T_EQ) & np.isin(P["id"], cw)
+                  moved = bool(eqr.any()) and float(np.abs(a1 - P["aref"])[eqr].max()) > 1e-5 * max(1.0, float(np.abs(P["aref"][eqr]).max()))
+                narrow = ratio <= 1 and moved and first_i_ok.get(w, False)
+                sig = "mujoco_cost_gap:connect_weld:stale_velocity_fields_on_first_call" if narrow else f"mujoco_cost_gap:{solver}"
                 rec.viol(sig, first_ii[w][1] + f"; the repeat forward() on the same Data gives {ratio:.3g}x bound")
           elif p == 1 and w in first_ii and first_ii[w][0] > cmp.VIOL_FACTOR and stale_candidate:
             rec.viol(f"mujoco_cost_gap:{solver}", first_ii[w][1])
